@@ -61,6 +61,12 @@ class Ctx:
         import multiprocessing as mp
 
         if self._pool is None:
+            # move everything allocated so far out of the collector's reach: otherwise the first
+            # full collection in each forked worker touches (and so copies) the whole inherited heap
+            import gc
+
+            gc.collect()
+            gc.freeze()
             ctx = mp.get_context("fork")
             self._pool = ctx.Pool(self.workers, initializer=_worker_init)
         for r in self._pool.imap(func, items, chunksize):
